@@ -204,6 +204,14 @@ func R84() Rule {
 			return false
 		}
 		var badPos token.Pos
+		// some encoded page token is used for something in the listing path (judge leaves early on the
+		// first offending edge, so this is established independently of it)
+		sawEncode := false
+		for _, ci := range core.CallsIn(scope, func(ci *core.CallInfo) bool { return ci.IsFunc(core.PkgGcsutil, "EncodePageToken") }) {
+			if v, ok := ci.Instr.(ssa.Value); ok && len(core.Referrers(v)) > 0 {
+				sawEncode = true
+			}
+		}
 		var judge func(v ssa.Value, isFlag flagTest, depth int, seen map[ssa.Value]bool) int
 		judge = func(v ssa.Value, isFlag flagTest, depth int, seen map[ssa.Value]bool) int {
 			v = core.Strip(v)
@@ -334,7 +342,12 @@ func R84() Rule {
 			c.Ok("R84", construct, sinks[0].st.Pos(), true, "NextPageToken is empty only on paths on which the walk's \"more results\" flag is known unset (%d store(s) judged)", len(sinks))
 		case 0:
 			notDecided("the value stored into NextPageToken is not computed in a shape this rule reads (φ / helper result over the flag and EncodePageToken)")
-		default:
+		case -1:
+			if !sawEncode {
+				// a different defect from "conditioned on more than the flag": no token is ever produced
+				c.Bad("R84", "listing/page-token-never-set", at, "no value stored into NextPageToken is the result of EncodePageToken: every listing ends after its first page, whatever the walk left unvisited")
+				return
+			}
 			c.Bad("R84", construct, at, "NextPageToken can be the empty string on a path on which the walk's \"more results\" flag is set (the token is conditioned on more than the flag): a page that was cut short by maxResults then tells the client the listing is over, and the rest of the bucket is never listed")
 		}
 	}}
